@@ -6,7 +6,7 @@ From HL7 Require Import Lib.Str Model.Ec Model.Escape Model.Result Model.Header 
 From HL7 Require Import Gen.Params Gen.Tables.
 From HL7 Require Import Proofs.EscapeFacts Proofs.SplitJoin Proofs.LevelCodec Proofs.RoundTripStr Proofs.RoundTripCore
   Proofs.RoundTripVT Proofs.RoundTripZ Proofs.RoundTripSeg Proofs.RoundTripMsh Proofs.RoundTripTables
-  Proofs.RoundTripSegTables Proofs.RoundTripMsg.
+  Proofs.RoundTripSegTables Proofs.RoundTripMsg Proofs.GroupsFacts Proofs.GroupsMirror.
 Import ListNotations.
 Open Scope bs_scope.
 
@@ -73,7 +73,7 @@ Proof.
               Hn1 Hn2 Hr1 Hr2 Hd1 Hd2 (msh2_of e) _ _ hf Hb Hf Hcr (leaf_enc_ST v e _ f mx Hrow) (leaf_enc_ST v e _ f mx Hrow)
               Hnt Hlen Hfs) as [s [Hp [Henc [Hn [Hv1 Hv2]]]]].
   exists s. split; [exact Hp|]. split; [exact Henc|]. split; [|auto].
-  rewrite Hn. right. change (upper MSH) with MSH. now rewrite Hl.
+  rewrite Hn. unfold known_name. right. change (upper MSH) with (unbs "MSH"). unfold MSH in Hl. now rewrite Hl.
 Qed.
 
 (* a valid delimiter set in C06's sense has the header properties *)
@@ -90,3 +90,92 @@ Proof.
     assert (is_alnum (fsep e) = false) as A by (apply Hall; unfold ec_all, ec_required; cbn; tauto).
     cbn in Hin. destruct Hin as [E|[E|[E|[]]]]; rewrite <- E in A; discriminate.
 Qed.
+
+(* ------------------------------------------------------------------ *)
+(* table premises of the grouped message theorem                        *)
+
+Section MsgChecks.
+Variable t : tables.
+
+(* every SEG row of a message / group structure is written by name *)
+Definition seg_rows_named (r : sref) : bool :=
+  match r with
+  | SSeqIn _ rows _ => forallb (fun x => match x with
+                                         | SByName _ _ _ _ => true
+                                         | SIn SEG _ _ _ _ => false
+                                         | SIn _ _ _ _ _ => true
+                                         | SRowBad => false end) rows
+  | _ => false
+  end.
+(* keys of the segment table of at most 3 characters: 3 characters, upper case, not a Z name, no white space *)
+Definition seg_key_ok (n : str) : bool :=
+  Nat.ltb 3 (length n) ||
+  (Nat.eqb (length n) 3 && streqb (upper n) n && negb (valid_z_segment_name n) && forallb (fun c => negb (is_space c)) n).
+Definition msg_tables_ok : bool :=
+  forallb (fun p : str * sref => seg_rows_named (snd p)) (t_messages t) &&
+  forallb (fun p : str * sref => seg_rows_named (snd p)) (t_groups t) &&
+  forallb (fun p : str * sref => seg_key_ok (fst p)) (t_segments t).
+
+Hypothesis Hok : msg_tables_ok = true.
+
+Lemma seg_keys_sound n sr : slookup n (t_segments t) = Some sr -> length n <= 3 ->
+  length n = 3 /\ upper n = n /\ valid_z_segment_name n = false /\ forallb (fun c => negb (is_space c)) n = true.
+Proof.
+  intros Hl Hlen. unfold msg_tables_ok in Hok. apply andb_prop in Hok. destruct Hok as [_ Hk].
+  rewrite forallb_forall in Hk. specialize (Hk _ (slookup_in _ _ _ Hl)). cbn [fst] in Hk. unfold seg_key_ok in Hk.
+  apply orb_prop in Hk. destruct Hk as [Hk|Hk]; [apply Nat.ltb_lt in Hk; lia|].
+  do 3 (apply andb_prop in Hk; destruct Hk as [Hk ?H]).
+  repeat split; [now apply Nat.eqb_eq|now apply streqb_eq|now apply negb_true_iff|assumption].
+Qed.
+
+Lemma declared_named pr n sr : seg_rows_named pr = true -> declared t pr SEG n sr -> slookup n (t_segments t) = Some sr.
+Proof.
+  intros Hr [rows [x [Hrows [Hin [Hk Href]]]]].
+  destruct pr as [i|i|c cs oi|]; try discriminate. cbn [rows_of] in Hrows. injection Hrows as <-.
+  cbn [seg_rows_named] in Hr. rewrite forallb_forall in Hr. specialize (Hr x Hin).
+  destruct x as [k nm mn mx|k nm r mn mx|]; cbn [row_name_kind] in Hk; try discriminate.
+  - injection Hk as -> ->. unfold Groups.row_ref in Href. cbn [row_view table_of] in Href.
+    destruct (slookup n (t_segments t)) as [r|]; [|discriminate]. cbn [vc_ref] in Href. now injection Href as <-.
+  - injection Hk as -> ->. discriminate.
+Qed.
+
+(* the reference of the structure that the Message constructor finds *)
+Lemma new_message_root lvl e name m st : new_message lvl t e name = Ok m -> m_st m = Some st ->
+  st_reference st = empty_seq \/ exists k, In (k, st_reference st) (t_messages t).
+Proof.
+  unfold new_message. intros H Hst.
+  match type of H with bind ?r _ = _ => destruct r as [m1|] eqn:E1; cbn [bind] in H; [|discriminate] end.
+  destruct (opt_is_none (m_name m1) && is_strict lvl); [discriminate|].
+  repeat match type of H with bind ?r _ = _ => destruct r; cbn [bind] in H; [|discriminate] end.
+  injection H as <-.
+  destruct name as [n0|]; [|injection E1 as <-; discriminate].
+  destruct (slookup (upper n0) (t_messages t)) as [r|] eqn:El.
+  - destruct (parse_structure t r) as [st1|] eqn:Ep; cbn [bind] in E1; [|discriminate]. injection E1 as <-.
+    cbn [m_st] in Hst. injection Hst as <-. right. exists (upper n0).
+    rewrite (parse_structure_ref t r st1 Ep). now apply slookup_in.
+  - destruct (valid_z_message_name (Some n0)); [|discriminate].
+    destruct (parse_structure t empty_seq) as [st1|] eqn:Ep; cbn [bind] in E1; [|discriminate]. injection E1 as <-.
+    cbn [m_st] in Hst. injection Hst as <-. left. exact (parse_structure_ref t _ st1 Ep).
+Qed.
+
+Lemma rows_named_sound root pr n sr :
+  (root = empty_seq \/ exists k, In (k, root) (t_messages t)) ->
+  pr_ok t root pr -> declared t pr SEG n sr -> slookup n (t_segments t) = Some sr.
+Proof.
+  intros Hroot Hpr Hd. unfold msg_tables_ok in Hok. apply andb_prop in Hok. destruct Hok as [Hmg _].
+  apply andb_prop in Hmg. destruct Hmg as [Hm Hg]. rewrite forallb_forall in Hm, Hg.
+  destruct Hpr as [->|[g [Hgl _]]].
+  - destruct Hroot as [->|[k Hin]].
+    + destruct Hd as [rows [x [Hrows [Hin _]]]]. cbn in Hrows. injection Hrows as <-. destruct Hin.
+    + apply (declared_named root); [exact (Hm _ Hin)|exact Hd].
+  - apply (declared_named pr); [exact (Hg _ (slookup_in _ _ _ Hgl))|exact Hd].
+Qed.
+
+End MsgChecks.
+
+(* which shipped versions satisfy msg_tables_ok: all but 2.1, whose group table carries inline
+   segment references *)
+Lemma shipped_msg_tables_ok :
+  map (fun p => msg_tables_ok (snd p)) all_tables =
+  [false; true; true; true; true; true; true; true; true; true; true; true].
+Proof. vm_compute. reflexivity. Qed.
